@@ -200,7 +200,8 @@ def run(pid, tier):
         any(h.get("firewall") for h in sp["hosts"].values())
         or any(sorted(v) != sorted(sp["services"]) for k, v in sp["firewall"].items() if k[1] != 0)
         or sp.get("_path_only"))]      # large files: "allow" rules and the topology are rules of the file too
-    agg, dyn_viol, errors = run_family(["C01", "C02"], tier, {}, entries=ruled)
+    # ... and the value / cost oracle (C05): host values, sensitive values and costs written in the file are what a step pays
+    agg, dyn_viol, errors = run_family(["C01", "C02", "C05"], tier, {}, entries=ruled)
     if errors:
         raise HarnessError("; ".join(errors[:3]))
     for v in dyn_viol:
